@@ -20,17 +20,17 @@ RULE = (
     "buffered publication or interval. distinct = JSON."
 )
 ASSUMPTIONS = [
-    "values are finite floats with |v| <= 1e6; linear interpolation compared with tolerance 1e-12*max|v|",
+    "values are finite floats with |v| <= 1e6, scaled by 10^k (k in {-12,-9,0,9}); linear interpolation compared with tolerance 1e-12 relative to max(|v|, 10^k); the other adapters exactly",
     "request times are exact on a microsecond lattice (fractions with denominators dividing the gap)",
     "request times are non-decreasing (documented usage); publications strictly increasing",
 ]
 DENS = [1, 2, 3, 4, 5, 8, 10]
 
 
-def _payload(v, grid):
+def _payload(v, grid, vscale=1.0):
     if not grid:
         return float(v)
-    return np.array([[v], [v + 0.5]], dtype=float)  # data_shape (2, 1) of UniformGrid((3, 2))
+    return np.array([[v], [v + 0.5 * vscale]], dtype=float)  # data_shape (2, 1) of UniformGrid((3, 2))
 
 
 def reference(kind, p, pubs, t):
@@ -62,6 +62,9 @@ def check(case, ctx):
     link = hs.Link(fm.Info(time=hs.T0, grid=g, units="m"), [fm.Info(time=hs.T0, grid=g, units="m")], chain=[spec])
     link.connect()
     inp = link.inputs[0]
+    vscale = 10.0 ** int(case.get("vexp", 0))  # numeric scale of the values; the tolerance of linear is relative to it
+    if vscale != 1.0:
+        ctx.event(f"value-scale=1e{case['vexp']}")
     pubs = []
     last_req = None
     inside = evicted = later_after_evict = False
@@ -70,8 +73,8 @@ def check(case, ctx):
     for op in ops:
         if op[0] == "push":
             t_now = t_now + timedelta(minutes=op[1]) if pubs else hs.T0
-            v = float(op[2])
-            link.out.push_data(_payload(v, grid), t_now)
+            v = float(op[2]) * vscale
+            link.out.push_data(_payload(v, grid, vscale), t_now)
             pubs.append((t_now, v))
             continue
         if not pubs:
@@ -112,9 +115,9 @@ def check(case, ctx):
             return
         n_pull += 1
         m = np.asarray(hs.magnitude(r), dtype=float)
-        want = np.asarray(_payload(exp, grid), dtype=float).reshape(m.shape[1:] if m.ndim else ())
+        want = np.asarray(_payload(exp, grid, vscale), dtype=float).reshape(m.shape[1:] if m.ndim else ())
         got = m[0] if m.ndim else m
-        tol = 1e-12 * max(1.0, abs(scale)) if kind == "lin" else 0.0
+        tol = 1e-12 * max(vscale, abs(scale)) if kind == "lin" else 0.0
         if got.shape != np.shape(want) or not np.allclose(got, want, rtol=0, atol=tol):
             on_pub = any(t == ti for ti, _ in pubs)
             tag = f"{kind}-at-publication" if on_pub else f"{kind}-value"
@@ -158,7 +161,7 @@ def case_st(draw, max_ops=30):
     for _ in range(n):
         k = draw(st.integers(0, 9))
         ops.append(draw(push_st if k < 4 else (pull_st if k < 9 else out_st)))
-    return {"adapter": draw(adapter_st), "grid": draw(st.booleans()), "ops": ops}
+    return {"adapter": draw(adapter_st), "grid": draw(st.booleans()), "ops": ops, "vexp": draw(st.sampled_from([0, 0, 0, -9, -12, 9]))}
 
 
 @st.composite
